@@ -236,7 +236,7 @@ def simulate(chk, mod, rxs, tier):
                 run_one('C02.S', f'chain of {length}', toks, bad)
         stats['chains'] += n
         if not bad:
-            chk.ok('C02.S', f'all {n} operator chains of length {length} (a op b ...): the interpreted parser builds exactly the tree of the ladder (E6x)')
+            chk.ok('C02.S', f'all {n} operator chains of length {length} (a op b ...): the interpreted parser builds exactly the tree of the ladder (E6x)', count=n)
         elif len(bad) > 6:
             chk.note(f'C02.S: {len(bad)} of {n} chains of length {length} parse to the wrong tree (first 6 reported)')
     if tier == 'thorough':
@@ -249,7 +249,7 @@ def simulate(chk, mod, rxs, tier):
             run_one('C02.S', 'chain of 5', toks, bad)
         stats['chains'] += n
         if not bad:
-            chk.ok('C02.S', f'all {n} chains of 5 operators drawn one per rung (7^5): trees agree with the ladder (E6x)')
+            chk.ok('C02.S', f'all {n} chains of 5 operators drawn one per rung (7^5): trees agree with the ladder (E6x)', count=n)
     # C02.D / C02.U: operand forms
     per_form = {}
     for name, toks in operand_sequences():
@@ -260,7 +260,7 @@ def simulate(chk, mod, rxs, tier):
         stats['operand sequences'] += 1
     for (rule, name), (n, bad) in per_form.items():
         if not bad:
-            chk.ok(rule, f'operand form `{name}`: {n} contexts (alone, left/right of one operator per rung, between two) parse to the dictated tree')
+            chk.ok(rule, f'operand form `{name}`: {n} contexts (alone, left/right of one operator per rung, between two) parse to the dictated tree', count=n)
     # C02.R / C02.X: ill-formed text
     for label, toks in ILL_FORMED.items():
         stats['ill-formed'] += 1
